@@ -5,7 +5,12 @@
    older than max(keep-alive interval, send interval) emits a datagram that carries it.
    Receiver y: an idle endpoint (IdleP.ep_ok); a datagram that carries the message is accepted
    unless a copy of it was accepted before, and the message is appended to incoming_messages
-   exactly once. *)
+   exactly once.
+   The pair: the joint invariant LJ over (sender, receiver, the two directions of TimedNet's ghost
+   wire, the sender's latest update()) — datagram numbers, "acks name accepted datagrams", "done
+   means delivered", the emission deadline — and its four step lemmas (sender reads its socket /
+   sender's update() / receiver is offered a datagram / receiver's update()).  Proofs/LiveNetP.v
+   runs it through the timed histories in both directions. *)
 From Coq Require Import Lia ZifyBool.
 From RecordUpdate Require Import RecordUpdate.
 From Model Require Import Base SeqNum Wire Conn Client Net TimedNet LiveNet.
